@@ -19,7 +19,10 @@ PROP = dict(
     spec=True,
     rule="ops on the real crypto package vs executable HKDF-SHA256 / X25519 references in Lean: kdf (DeriveSessionKey.Key() for random/zero/0xff "
          "secrets and keys, request ids 0, 2^63, 2^64-1, random), kdf2 (two derivations differing in one bit of one component, swapped key order, or nothing), "
-         "dh (ComputeECDH on random, honest, all-zero and all 12 small-order/non-canonical remote keys), pair (both roles on real X25519 key pairs), "
+         "dh/dhkey (ComputeECDH, then DeriveSessionKey, on random, honest, all-zero and every small-order point in every encoding X25519 treats as equal: "
+         "bit 255 clear and set, non-canonical p and p+1; a key derived from an all-zero secret is a violation), "
+         "hs (multi-step handshakes on the real exit/forward/udp/shell handlers: duplicate open with the same or a fresh ingress key, re-open after close, the same "
+         "request id on another stream; after every acknowledged open the echo must come back, i.e. both ends hold the same key), pair (both roles on real X25519 key pairs), "
          "tunnel (one live tunnel per kind tcp/udp/forward/file/shell through three real in-process agents: the echo only returns if both call sites agree); "
          "every op is non-trivial",
     trusted_base=[
